@@ -464,7 +464,7 @@ func VerifC15_AddTx() {
 		vs.Assert(tx.Cost().Cmp(pool.currentState.GetBalance(from.addr)) <= 0, "accepted transaction is affordable")
 		vs.Assert(gas <= pool.currentMaxGas, "accepted transaction fits the block gas limit")
 		vs.Assert(value.Sign() >= 0, "accepted transaction has no negative value")
-		if !pool.locals.contains(from.addr) {
+		if !local && !from.local { // submitted as remote, from an account that was not local
 			vs.Assert(price.Cmp(pool.gasPrice) >= 0, "accepted remote transaction pays the pool's minimum price")
 		}
 	} else {
